@@ -285,4 +285,3 @@ func TestC17(t *testing.T) {
 			})
 		})
 }
-
